@@ -72,3 +72,5 @@ func TestC15(t *testing.T) {
 }
 
 func TestC16(t *testing.T) { core.Run(t, "C16", GenC, ExecC) }
+
+func TestC15Seq(t *testing.T) { core.Run(t, "C15", GenA4Seq, ExecA4Seq) }
